@@ -1,11 +1,34 @@
-// C10 conformance harness, shared part (command line: see c10_bitfield.cpp): enums, the driver
-// template over (enum, storage word type) and the record writers.  It contains no expected
-// values: spec/BitfieldJudge.tla (TLC) is the judge.
+// C10 conformance harness, shared part: the driver template over (enum, storage word type), the
+// record writers and main().  It contains no expected values: spec/BitfieldJudge.tla (TLC) is the
+// judge.
+//
+// One executable per enum (c10_bitfield_n<N>.cpp: 1, 3, 8, 9, 17, 33, 64, 65 enumerators; every
+// executable instantiates the four storage word types) so that a change of fcppt after which one
+// instantiation no longer compiles does not take the others with it.  The record kinds that lie
+// OUTSIDE the statement of C10 (operator<<, underlying_value, details of the proxy type, the array
+// constructor, fcppt::enum_::array) live in separate executables (c10_bitfield_x<N>.cpp, which
+// compile the same sources with C10_OBSERVED): neither a compile error nor a crash in those parts
+// can touch the records that are judged in scope.
+//
+//   c10_bitfield_nN record OUT N w seed pairs_mode ntrees nhist [bits_stride lastword_stride deep]
+//        pairs_mode: "all" = every pair of subsets (N <= 9), or a number of random pairs
+//        bits_stride k > 0: all single-enumerator operations of every k-th subset (N <= 17) resp.
+//        of 16 structured subsets (N > 17)
+//        lastword_stride k > 0 (multi-word bitfields): pairs of subsets that differ only in the
+//        last storage word, for every k-th choice of the other words (N > 17: eight choices)
+//   c10_bitfield_nN replay SCRIPTS.ndjson OUT N w     (one JSON array of op records per line)
 //
 // Values are logged observationally: a bitfield is written as the list of enumerators for which
-// get() returned true.  Every produced value v is additionally compared (==, !=, both hash function
-// objects, is_subset_eq in both directions) with a twin c built by init() from v's own get()
-// results - the judge decides from the two logged sets what those comparisons had to yield.
+// get() returned true.  Subsets chosen by the generator are written as element lists as well (TLC
+// integers are 32-bit: no masks in the log).  Every produced value v is additionally compared (==,
+// !=, both hash function objects, is_subset_eq in both directions) with a twin c built by init()
+// from v's own get() results - the judge decides from the two logged sets what those comparisons
+// had to yield.
+//
+// Failures caused by the code under test: every record is started with alarm(20) (a hang ends in
+// exit 68), the name of the operation being driven is kept in g_op and written into the crash line
+// (signals, std::terminate, sanitizer reports), an exception that escapes from the code under test
+// ends the record (the partial line stays) with an {"e":"exc"} line and the run carries on.
 #ifndef VERIF_C10_BITFIELD_HPP
 #define VERIF_C10_BITFIELD_HPP
 #include <common/vjson.hpp>
@@ -16,64 +39,178 @@
 #include <fcppt/container/bitfield/is_subset_eq.hpp>
 #include <fcppt/container/bitfield/object.hpp>
 #include <fcppt/container/bitfield/operators.hpp>
+#include <fcppt/container/bitfield/std_hash.hpp>
+#include <fcppt/enum/size.hpp>
+#ifdef C10_OBSERVED
 #include <fcppt/container/bitfield/output.hpp>
 #include <fcppt/container/bitfield/underlying_value.hpp>
 #include <fcppt/enum/array.hpp>
 #include <fcppt/enum/array_init.hpp>
 #include <fcppt/enum/to_string_impl_fwd.hpp>
-#include <fcppt/container/bitfield/std_hash.hpp>
-#include <fcppt/enum/size.hpp>
+#include <sstream>
+#include <string_view>
+#endif
 
+#include <algorithm>
 #include <cstdint>
 #include <functional>
 #include <limits>
 #include <memory>
-#include <sstream>
+#include <stdexcept>
 #include <string>
-#include <string_view>
+#include <fcntl.h>
+#include <sys/mman.h>
+#include <unistd.h>
 #include <utility>
 #include <vector>
 
-namespace
+#if defined(__SANITIZE_ADDRESS__)
+extern "C" void __sanitizer_set_death_callback(void (*)(void));
+#endif
+
+namespace c10
 {
-enum class e1 { v0, fcppt_maximum = v0 };
-enum class e3 { v0, v1, v2, fcppt_maximum = v2 };
-enum class e8 { v0, v1, v2, v3, v4, v5, v6, v7, fcppt_maximum = v7 };
-enum class e9 { v0, v1, v2, v3, v4, v5, v6, v7, v8, fcppt_maximum = v8 };
-enum class e17
+// ---- which operation of the code under test is running (for crash lines) ----
+inline char const *volatile g_op = "startup";
+inline char const *volatile g_kind = "none";
+inline int g_exceptions = 0;
+// The same two names are mirrored into a small memory-mapped side file (OUT.op: 64 bytes operation,
+// 64 bytes record kind): it survives every kind of death of the process - also those that run no
+// handler of ours (a UBSan report with halt_on_error, SIGKILL after a timeout).
+inline char *g_side = nullptr;
+inline void side_copy(char *const dst, char const *const src)
 {
-  v0, v1, v2, v3, v4, v5, v6, v7, v8, v9, v10, v11, v12, v13, v14, v15, v16,
-  fcppt_maximum = v16
+  std::size_t k = 0;
+  for (; k < 63U && src[k] != '\0'; ++k) dst[k] = src[k];
+  dst[k] = '\0';
+}
+inline void set_op(char const *const name)
+{
+  g_op = name;
+  if (g_side != nullptr) side_copy(g_side, name);
+}
+inline void set_kind(char const *const name)
+{
+  g_kind = name;
+  if (g_side != nullptr) side_copy(g_side + 64, name);
+}
+#define OP(name) (::c10::set_op(name))
+
+// a bug of the harness itself (exit 3); anything else that is thrown comes from the code under test
+struct harness_error : std::runtime_error
+{
+  using std::runtime_error::runtime_error;
 };
 
-// the enumerator names printed by operator<< : "v0", "v1", ...
-inline std::string_view enum_name(unsigned const i)
+inline void die_line(char const *const what, int const code)
 {
-  static char const *const names[] = {"v0", "v1", "v2", "v3", "v4", "v5", "v6", "v7", "v8",
-                                      "v9", "v10", "v11", "v12", "v13", "v14", "v15", "v16"};
-  return names[i];
+  char buf[320];
+  int const n = std::snprintf(
+      buf, sizeof buf, "\n{\"e\":\"crash\",\"what\":\"%s\",\"code\":%d,\"op\":\"%s\",\"f\":\"%s\"}\n", what, code, g_op, g_kind);
+  if (vj::out_file() != nullptr) std::fflush(vj::out_file());
+  if (n > 0)
+  {
+    ssize_t const r = ::write(vj::out_fd(), buf, static_cast<std::size_t>(n));
+    (void)r;
+  }
 }
+inline void on_signal(int const sig)
+{
+  die_line(sig == SIGALRM ? "hang" : "signal", sig);
+  _exit(sig == SIGALRM ? 68 : 67);
+}
+inline void on_terminate()
+{
+  die_line("terminate", 0);
+  _exit(67);
+}
+inline void on_sanitizer_death() { die_line("sanitizer", 66); }
+
+inline void install_handlers(char const *const out_path)
+{
+  std::string const side = std::string(out_path) + ".op";
+  int const fd = ::open(side.c_str(), O_RDWR | O_CREAT | O_TRUNC, 0644);
+  if (fd >= 0 && ::ftruncate(fd, 128) == 0)
+  {
+    void *const m = ::mmap(nullptr, 128, PROT_READ | PROT_WRITE, MAP_SHARED, fd, 0);
+    if (m != MAP_FAILED) g_side = static_cast<char *>(m);
+  }
+  if (fd >= 0) ::close(fd);
+  std::set_terminate(on_terminate);
+  for (int const s : {SIGSEGV, SIGBUS, SIGFPE, SIGILL, SIGABRT, SIGALRM}) std::signal(s, on_signal);
+#if defined(__SANITIZE_ADDRESS__)
+  __sanitizer_set_death_callback(on_sanitizer_death);
+#endif
 }
 
-namespace fcppt::enum_
+inline void note_exception(char const *const what)
 {
-#define VERIF_NAMES(E)                                                                         \
-  template <>                                                                                  \
-  struct to_string_impl<E>                                                                     \
-  {                                                                                            \
-    static std::string_view get(E const e) { return enum_name(static_cast<unsigned>(e)); }      \
-  };
-VERIF_NAMES(e1)
-VERIF_NAMES(e3)
-VERIF_NAMES(e8)
-VERIF_NAMES(e9)
-VERIF_NAMES(e17)
-#undef VERIF_NAMES
+  vj::J j;
+  j.kv("e", "exc").kv("op", static_cast<char const *>(g_op)).kv("f", static_cast<char const *>(g_kind)).kv("what", what);
+  std::fputc('\n', vj::out_file());
+  vj::line(j);
+  std::fflush(vj::out_file());
+  if (++g_exceptions >= 25)
+  {
+    ::alarm(0);
+    vj::close();
+    std::exit(65);
+  }
 }
 
-namespace
+// runs the body of one record; an exception thrown by the code under test ends that record only
+template <typename F>
+void guarded(F const &f)
 {
-using mask_t = std::uint32_t; // the generator's description of a subset (n <= 17)
+  try
+  {
+    f();
+  }
+  catch (harness_error const &)
+  {
+    throw;
+  }
+  catch (std::exception const &e)
+  {
+    note_exception(e.what());
+  }
+  catch (...)
+  {
+    note_exception("not a std::exception");
+  }
+}
+
+inline void begin(char const *const kind, std::string const &prefix)
+{
+  set_kind(kind);
+  OP("harness");
+  ::alarm(20);
+  vj::begin_call(prefix);
+}
+
+// ---- the generator's description of a subset: up to 128 enumerators; never logged as a number ----
+using mask_t = unsigned __int128;
+
+inline mask_t bit(unsigned const i) { return mask_t{1} << i; }
+inline mask_t full_mask(unsigned const n) { return n >= 128U ? ~mask_t{0} : (mask_t{1} << n) - 1U; }
+inline mask_t range_mask(unsigned const lo, unsigned const hi) // enumerators lo .. hi-1
+{
+  return full_mask(hi) & ~full_mask(lo);
+}
+inline mask_t rnd_mask(vj::Rng &g) { return (static_cast<mask_t>(g.next()) << 64U) | g.next(); }
+inline mask_t mix_mask(mask_t const m, unsigned const a, unsigned const b)
+{
+  vj::Rng g(static_cast<std::uint64_t>(m) * 2654435761ULL + static_cast<std::uint64_t>(m >> 64U) * 40503ULL + a * 131ULL + b);
+  return rnd_mask(g);
+}
+
+inline std::vector<unsigned> members(mask_t const m, unsigned const n)
+{
+  std::vector<unsigned> r;
+  for (unsigned i = 0; i < n; ++i)
+    if ((m >> i) & 1U) r.push_back(i);
+  return r;
+}
 
 // ---- expression trees over the operators (generator side: shape only) ----
 struct tree
@@ -86,11 +223,11 @@ struct tree
 };
 using tp = std::shared_ptr<tree>;
 
-std::string tree_json(tree const &t)
+inline std::string tree_json(tree const &t)
 {
   vj::J j;
   j.kv("o", t.o);
-  if (t.o == "set" || t.o == "init") j.raw("s", vj::arr(t.s));
+  if (t.o == "set" || t.o == "init" || t.o == "ilist") j.raw("s", vj::arr(t.s));
   if (t.x) j.raw("x", tree_json(*t.x));
   if (t.l) j.raw("l", tree_json(*t.l));
   if (t.r) j.raw("r", tree_json(*t.r));
@@ -99,21 +236,21 @@ std::string tree_json(tree const &t)
   return j.str();
 }
 
-tp leaf(std::string const &o, std::vector<unsigned> s = {})
+inline tp leaf(std::string const &o, std::vector<unsigned> s = {})
 {
   auto t = std::make_shared<tree>();
   t->o = o;
   t->s = std::move(s);
   return t;
 }
-tp un(std::string const &o, tp x)
+inline tp un(std::string const &o, tp x)
 {
   auto t = std::make_shared<tree>();
   t->o = o;
   t->x = std::move(x);
   return t;
 }
-tp bin(std::string const &o, tp l, tp r)
+inline tp bin(std::string const &o, tp l, tp r)
 {
   auto t = std::make_shared<tree>();
   t->o = o;
@@ -121,7 +258,7 @@ tp bin(std::string const &o, tp l, tp r)
   t->r = std::move(r);
   return t;
 }
-tp elem(std::string const &o, tp x, unsigned e, bool b)
+inline tp elem(std::string const &o, tp x, unsigned const e, bool const b)
 {
   auto t = std::make_shared<tree>();
   t->o = o;
@@ -131,21 +268,13 @@ tp elem(std::string const &o, tp x, unsigned e, bool b)
   return t;
 }
 
-std::vector<unsigned> members(mask_t m, unsigned n)
-{
-  std::vector<unsigned> r;
-  for (unsigned i = 0; i < n; ++i)
-    if ((m >> i) & 1U) r.push_back(i);
-  return r;
-}
-
 constexpr unsigned num_prov = 6;
-char const *const prov_name[num_prov] = {"set", "init", "not", "notnot", "xorfull", "ornotall"};
+inline char const *const prov_name[num_prov] = {"set", "init", "not", "notnot", "xorfull", "ornotall"};
 
 // the six ways in which a subset m is produced
-tp prov_tree(unsigned p, mask_t m, unsigned n)
+inline tp prov_tree(unsigned const p, mask_t const m, unsigned const n)
 {
-  mask_t const full = (n >= 32 ? ~mask_t{0} : ((mask_t{1} << n) - 1U));
+  mask_t const full = full_mask(n);
   mask_t const comp = ~m & full;
   switch (p)
   {
@@ -158,18 +287,34 @@ tp prov_tree(unsigned p, mask_t m, unsigned n)
   }
 }
 
+struct args
+{
+  bool replay = false;
+  std::string scripts;
+  std::uint64_t seed = 1;
+  std::string pairs = "0";
+  long ntrees = 0;
+  long nhist = 0;
+  long bits_stride = 0;
+  long lastword_stride = 0;
+  bool deep = false; // thorough: four partner enumerators per proxy record instead of two
+};
+
 template <typename E, typename Wd>
 struct driver
 {
   using bf = fcppt::container::bitfield::object<E, Wd>;
   static constexpr unsigned N = static_cast<unsigned>(fcppt::enum_::size<E>::value);
   static constexpr int W = std::numeric_limits<Wd>::digits;
+  static constexpr bool big = N > 17U; // sampled with structured subsets around the word boundaries
+  static_assert(N <= 100U, "enumerator names and mask_t are made for at most 100 enumerators");
 
-  static E en(unsigned i) { return static_cast<E>(i); }
+  static E en(unsigned const i) { return static_cast<E>(i); }
 
   // ---- observation ----
   static std::string elems(bf const &v)
   {
+    OP("get");
     std::string s = "[";
     bool f = true;
     for (unsigned i = 0; i < N; ++i)
@@ -183,6 +328,7 @@ struct driver
   }
   static std::string elems_index(bf const &v) // const operator[]
   {
+    OP("index");
     std::string s = "[";
     bool f = true;
     for (unsigned i = 0; i < N; ++i)
@@ -196,6 +342,7 @@ struct driver
   }
   static std::string elems_and(bf const &v) // operator&(field, enumerator)
   {
+    OP("and_elem");
     std::string s = "[";
     bool f = true;
     for (unsigned i = 0; i < N; ++i)
@@ -212,10 +359,15 @@ struct driver
     fcppt::container::bitfield::hash<bf> const h{};
     std::hash<bf> const sh{};
     std::string s = "[";
+    OP("operator==");
     s += (l == r) ? "1," : "0,";
+    OP("operator!=");
     s += (l != r) ? "1," : "0,";
+    OP("hash");
     s += (h(l) == h(r)) ? "1," : "0,";
+    OP("std_hash");
     s += (sh(l) == sh(r)) ? "1," : "0,";
+    OP("is_subset_eq");
     s += fcppt::container::bitfield::is_subset_eq(l, r) ? "1," : "0,";
     s += fcppt::container::bitfield::is_subset_eq(r, l) ? "1]" : "0]";
     return s;
@@ -223,8 +375,32 @@ struct driver
   // V = [v, c, K(v, c)] with c the twin built by init from v's own get() results
   static std::string obs(bf const &v)
   {
+    OP("init");
     bf const c(fcppt::container::bitfield::init<bf>([&v](E const e) { return v.get(e); }));
     return "[" + elems(v) + "," + elems(c) + "," + rel(v, c) + "]";
+  }
+
+  // ---- an initializer list with run-time contents (at most six elements) ----
+  template <std::size_t... Is>
+  static bf ilist_of(std::vector<unsigned> const &s, std::index_sequence<Is...>)
+  {
+    return bf{en(s[Is])...};
+  }
+  static constexpr unsigned max_ilist = 6;
+  static bf from_ilist(std::vector<unsigned> const &s)
+  {
+    OP("ilist");
+    switch (s.size())
+    {
+    case 0: return bf(typename bf::initializer_list_type{});
+    case 1: return ilist_of(s, std::make_index_sequence<1>{});
+    case 2: return ilist_of(s, std::make_index_sequence<2>{});
+    case 3: return ilist_of(s, std::make_index_sequence<3>{});
+    case 4: return ilist_of(s, std::make_index_sequence<4>{});
+    case 5: return ilist_of(s, std::make_index_sequence<5>{});
+    case 6: return ilist_of(s, std::make_index_sequence<6>{});
+    default: throw harness_error("initializer list with more than six elements");
+    }
   }
 
   // ---- evaluation of a tree with the real operators ----
@@ -232,49 +408,143 @@ struct driver
   {
     if (t.o == "set")
     {
+      OP("set");
       bf r(bf::null());
       for (unsigned i : t.s) r.set(en(i), true);
       return r;
     }
     if (t.o == "init")
     {
+      OP("init");
       return fcppt::container::bitfield::init<bf>([&t](E const e) {
         for (unsigned i : t.s)
           if (en(i) == e) return true;
         return false;
       });
     }
-    if (t.o == "null") return bf::null();
-    if (t.o == "not") return ~eval(*t.x);
-    if (t.o == "or") return eval(*t.l) | eval(*t.r);
-    if (t.o == "and") return eval(*t.l) & eval(*t.r);
-    if (t.o == "xor") return eval(*t.l) ^ eval(*t.r);
-    if (t.o == "ora") { bf a(eval(*t.l)); bf &ref = (a |= eval(*t.r)); return ref; }
-    if (t.o == "anda") { bf a(eval(*t.l)); bf &ref = (a &= eval(*t.r)); return ref; }
-    if (t.o == "xora") { bf a(eval(*t.l)); bf &ref = (a ^= eval(*t.r)); return ref; }
-    if (t.o == "sete") { bf a(eval(*t.x)); a.set(en(t.e), t.b); return a; }
-    if (t.o == "idx") { bf a(eval(*t.x)); a[en(t.e)] = t.b; return a; }
-    if (t.o == "ore") return eval(*t.x) | en(t.e);
-    if (t.o == "orae") { bf a(eval(*t.x)); bf &ref = (a |= en(t.e)); return ref; }
-    throw std::runtime_error("tree: unknown operator " + t.o);
+    if (t.o == "ilist") return from_ilist(t.s);
+    if (t.o == "null") { OP("null"); return bf::null(); }
+    if (t.o == "not") { bf a(eval(*t.x)); OP("not"); return ~a; }
+    if (t.o == "or") { bf a(eval(*t.l)); bf b(eval(*t.r)); OP("or"); return std::move(a) | b; }
+    if (t.o == "and") { bf a(eval(*t.l)); bf b(eval(*t.r)); OP("and"); return std::move(a) & b; }
+    if (t.o == "xor") { bf a(eval(*t.l)); bf b(eval(*t.r)); OP("xor"); return std::move(a) ^ b; }
+    if (t.o == "ora") { bf a(eval(*t.l)); bf b(eval(*t.r)); OP("ora"); bf &ref = (a |= b); return ref; }
+    if (t.o == "anda") { bf a(eval(*t.l)); bf b(eval(*t.r)); OP("anda"); bf &ref = (a &= b); return ref; }
+    if (t.o == "xora") { bf a(eval(*t.l)); bf b(eval(*t.r)); OP("xora"); bf &ref = (a ^= b); return ref; }
+    if (t.o == "sete") { bf a(eval(*t.x)); OP("set"); a.set(en(t.e), t.b); return a; }
+    if (t.o == "idx") { bf a(eval(*t.x)); OP("idx"); a[en(t.e)] = t.b; return a; }
+    if (t.o == "ore") { bf a(eval(*t.x)); OP("ore"); return std::move(a) | en(t.e); }
+    if (t.o == "orae") { bf a(eval(*t.x)); OP("orae"); bf &ref = (a |= en(t.e)); return ref; }
+    throw harness_error("tree: unknown operator " + t.o);
   }
 
-  static bf make(unsigned p, mask_t m) { return eval(*prov_tree(p, m, N)); }
+  static bf make(unsigned const p, mask_t const m) { return eval(*prov_tree(p, m, N)); }
 
-  static std::string head(char const *f)
+  static std::string head(char const *const f)
   {
     vj::J j;
     j.kv("f", f).kv("n", N).kv("w", W);
     return j.s;
   }
 
-  // ---- record kinds ----
+  static std::vector<unsigned> observed(bf const &v)
+  {
+    OP("get");
+    std::vector<unsigned> r;
+    for (unsigned i = 0; i < N; ++i)
+      if (v.get(en(i))) r.push_back(i);
+    return r;
+  }
+
+  template <unsigned... Is>
+  static bf all_of(std::integer_sequence<unsigned, Is...>, bool const reversed)
+  {
+    return reversed ? bf{en(N - 1 - Is)...} : bf{en(Is)...};
+  }
+
+  // ---- the enumerators next to a storage word boundary of some word type (big enums) ----
+  static std::vector<unsigned> hot()
+  {
+    std::vector<unsigned> r;
+    for (unsigned const e : {0U, 7U, 8U, 15U, 16U, 31U, 32U, 33U, 47U, 48U, 62U, 63U, 64U, N - 2U, N - 1U})
+      if (e < N && std::find(r.begin(), r.end(), e) == r.end()) r.push_back(e);
+    return r;
+  }
+  static std::vector<unsigned> very_hot()
+  {
+    std::vector<unsigned> r;
+    for (unsigned const e : {0U, 31U, 32U, 33U, 63U, 64U, N - 1U})
+      if (e < N && std::find(r.begin(), r.end(), e) == r.end()) r.push_back(e);
+    return r;
+  }
+
+  // the subsets driven one by one: all of them up to 9 enumerators, a sample beyond
+  static std::vector<mask_t> subset_sample(vj::Rng &g)
+  {
+    mask_t const full = full_mask(N);
+    std::vector<mask_t> masks;
+    if (N <= 9)
+    {
+      for (mask_t m = 0; m <= full; ++m) masks.push_back(m);
+    }
+    else if (!big)
+    {
+      masks = {0U, full, 1U, bit(N - 1), full >> 1U, full & ~mask_t{1}, 0xFFU, 0x100U, 0xFF00U, 0x10000U, 0xFFFFU};
+      for (unsigned i = 0; i < N; ++i) masks.push_back(bit(i));
+      for (int i = 0; i < 200; ++i) masks.push_back(static_cast<mask_t>(g.next()) & full);
+    }
+    else
+    {
+      auto const add = [&masks, full](mask_t const m) {
+        mask_t const v = m & full;
+        if (std::find(masks.begin(), masks.end(), v) == masks.end()) masks.push_back(v);
+      };
+      add(0U);
+      add(full);
+      for (unsigned const e : hot()) add(bit(e));
+      for (unsigned const e : very_hot()) add(full ^ bit(e));
+      add(range_mask(0, 32));  // everything a 32-bit intermediate can hold
+      add(range_mask(32, N));  // everything it cannot
+      add(range_mask(0, 33));
+      add(range_mask(0, 63));
+      add(range_mask(0, 64));
+      add(range_mask(64, N));
+      add(range_mask(31, 34));
+      add(bit(31) | bit(32));
+      add(bit(63) | bit(64));
+      add(bit(0) | bit(N - 1));
+      // alternating storage words of every word type, alternating bits
+      for (unsigned const w : {8U, 16U, 32U, 64U})
+      {
+        mask_t even = 0;
+        for (unsigned lo = 0; lo < N; lo += 2U * w) even |= range_mask(lo, lo + w);
+        add(even);
+        add(~even);
+      }
+      mask_t alt = 0;
+      for (unsigned i = 0; i < N; i += 2U) alt |= bit(i);
+      add(alt);
+      add(~alt);
+      for (int i = 0; i < 6; ++i) add(rnd_mask(g));
+      for (int i = 0; i < 6; ++i) add(rnd_mask(g) & rnd_mask(g) & rnd_mask(g)); // sparse
+      for (int i = 0; i < 4; ++i) add(rnd_mask(g) | rnd_mask(g) | rnd_mask(g)); // dense
+    }
+    return masks;
+  }
+
+#ifndef C10_OBSERVED
+  // =====================================================================================
+  // record kinds inside the statement of C10
+  // =====================================================================================
   static void build_records()
   {
     auto emit = [](char const *how, std::vector<unsigned> const &s, auto const &make_it) {
-      vj::begin_call(head("build") + ",\"how\":\"" + how + "\",\"s\":" + vj::arr(s));
-      bf const v(make_it());
-      vj::end_call(",\"r\":" + obs(v) + "}");
+      guarded([&] {
+        begin("build", head("build") + ",\"how\":\"" + how + "\",\"s\":" + vj::arr(s));
+        OP(how);
+        bf const v(make_it());
+        vj::end_call(",\"r\":" + obs(v) + "}");
+      });
     };
     unsigned const last = N - 1;
     emit("null", {}, [] { return bf::null(); });
@@ -291,257 +561,278 @@ struct driver
       std::vector<unsigned> rev(all.rbegin(), all.rend());
       emit("ilist", rev, [] { return all_of(std::make_integer_sequence<unsigned, N>{}, true); });
     }
-    // a bitfield is "like a std::map<Enum,bool>": initialise it from an enum_::array<E,bool>
+    // copy construction and copy assignment of values that were themselves produced in the six ways
+    mask_t const full = full_mask(N);
+    std::vector<mask_t> picks = {0U, full, 1U, bit(N - 1), full & 0x15555U, full & 0x0AAAAU};
+    if (big)
     {
-      fcppt::enum_::array<E, bool> flags(
-          fcppt::enum_::array_init<fcppt::enum_::array<E, bool>>([](E const e) { return static_cast<unsigned>(e) % 2U == 0U; }));
-      std::vector<unsigned> s;
-      for (unsigned i = 0; i < N; ++i)
-        if (flags[en(i)]) s.push_back(i);
-      emit("enum_array", s, [&flags] { return fcppt::container::bitfield::init<bf>([&flags](E const e) { return flags[e]; }); });
+      picks.push_back(range_mask(32, N));
+      picks.push_back(bit(31) | bit(32) | bit(N - 1));
     }
-    // copy construction, copy assignment, construction from the internal array - of values that
-    // were themselves produced in the six ways
-    mask_t const full = (mask_t{1} << N) - 1U;
-    mask_t const picks[] = {0U, full, 1U, mask_t{1} << (N - 1), full & 0x15555U, full & 0x0AAAAU};
+    // (s = what get() reports for the source: the copies only have to carry the value)
     for (mask_t m : picks)
       for (unsigned p = 0; p < num_prov; ++p)
+        guarded([&] {
+          set_kind("build");
+          ::alarm(20);
+          bf const src(make(p, m));
+          std::vector<unsigned> const s = observed(src);
+          emit("copy", s, [&src] { return bf(src); });
+          emit("assign", s, [&src] { bf d(bf::null()); d = src; return d; });
+          // over a non-empty target, followed by a self-assignment
+          emit("assign", s, [&src] { bf d(~bf::null()); d = src; bf const *const self = &d; d = *self; return d; });
+        });
+  }
+
+  // initializer lists with contents chosen at run time (order, repetitions)
+  static void ilist_records(vj::Rng &g, std::vector<unsigned> const &hot_e)
+  {
+    for (unsigned k = 0; k < 40U; ++k)
+    {
+      std::vector<unsigned> s;
+      unsigned const len = static_cast<unsigned>(g.below(max_ilist + 1U));
+      for (unsigned i = 0; i < len; ++i)
       {
-        bf const src(make(p, m));
-        std::vector<unsigned> const s = observed(src);
-        emit("copy", s, [&src] { return bf(src); });
-        emit("assign", s, [&src] { bf d(bf::null()); d = src; return d; });
-        emit("array", s, [&src] { return bf(src.array()); });
+        if (!s.empty() && g.below(4) == 0)
+          s.push_back(s[g.below(s.size())]); // a repetition
+        else if (big && g.coin())
+          s.push_back(hot_e[g.below(hot_e.size())]);
+        else
+          s.push_back(static_cast<unsigned>(g.below(N)));
       }
-  }
-  template <unsigned... Is>
-  static bf all_of(std::integer_sequence<unsigned, Is...>, bool reversed)
-  {
-    return reversed ? bf{en(N - 1 - Is)...} : bf{en(Is)...};
-  }
-  static std::vector<unsigned> observed(bf const &v)
-  {
-    std::vector<unsigned> r;
-    for (unsigned i = 0; i < N; ++i)
-      if (v.get(en(i))) r.push_back(i);
-    return r;
+      guarded([&] {
+        begin("build", head("build") + ",\"how\":\"ilist\",\"s\":" + vj::arr(s));
+        bf const v(from_ilist(s));
+        vj::end_call(",\"r\":" + obs(v) + "}");
+      });
+    }
   }
 
-  static void single_record(unsigned p, mask_t m)
+  static void single_record(unsigned const p, mask_t const m)
   {
-    tp const t = prov_tree(p, m, N);
-    vj::begin_call(head("single") + ",\"p\":\"" + prov_name[p] + "\",\"t\":" + tree_json(*t));
-    bf const a(eval(*t));
-    std::string r;
-    r += ",\"a\":" + elems(a) + ",\"ai\":" + elems_index(a) + ",\"ae\":" + elems_and(a);
-    r += ",\"can\":" + obs(a);
-    r += ",\"not\":" + obs(~a);
-    r += ",\"notnot\":" + obs(~~a);
-    { bf c(a); bf &ref = (c |= c); r += ",\"sora\":" + obs(ref); }
-    { bf c(a); bf &ref = (c &= c); r += ",\"sanda\":" + obs(ref); }
-    { bf c(a); bf &ref = (c ^= c); r += ",\"sxora\":" + obs(ref); }
-    r += ",\"rel\":" + rel(a, a);
-    r += ",\"aa\":" + elems(a) + "}";
-    vj::end_call(r);
+    guarded([&] {
+      tp const t = prov_tree(p, m, N);
+      begin("single", head("single") + ",\"p\":\"" + prov_name[p] + "\",\"t\":" + tree_json(*t));
+      bf const a(eval(*t));
+      std::string r;
+      r += ",\"a\":" + elems(a) + ",\"ai\":" + elems_index(a) + ",\"ae\":" + elems_and(a);
+      r += ",\"can\":" + obs(a);
+      OP("not");
+      r += ",\"not\":" + obs(~a);
+      OP("not");
+      r += ",\"notnot\":" + obs(~~a);
+      { bf c(a); OP("ora"); bf &ref = (c |= c); r += ",\"sora\":" + obs(ref); }
+      { bf c(a); OP("anda"); bf &ref = (c &= c); r += ",\"sanda\":" + obs(ref); }
+      { bf c(a); OP("xora"); bf &ref = (c ^= c); r += ",\"sxora\":" + obs(ref); }
+      r += ",\"rel\":" + rel(a, a);
+      r += ",\"aa\":" + elems(a) + "}";
+      vj::end_call(r);
+    });
   }
 
-  static void elem_record(unsigned p, mask_t m, unsigned e)
+  static void elem_record(unsigned const p, mask_t const m, unsigned const e)
   {
-    vj::J pre;
-    pre.kv("f", "elem").kv("n", N).kv("w", W).kv("p", prov_name[p]).kv("m", static_cast<long long>(m)).kv("e", e);
-    vj::begin_call(pre.s);
-    bf const a(make(p, m));
-    std::string r = ",\"a\":" + elems(a);
-    { bf c(a); c.set(en(e), true); r += ",\"set1\":" + obs(c); }
-    { bf c(a); c.set(en(e), false); r += ",\"set0\":" + obs(c); }
-    { bf c(a); c[en(e)] = true; r += ",\"idx1\":" + obs(c); }
-    { bf c(a); c[en(e)] = false; r += ",\"idx0\":" + obs(c); }
-    r += ",\"ore\":" + obs(a | en(e));
-    { bf c(a); bf &ref = (c |= en(e)); r += ",\"orae\":" + obs(ref); }
-    r += ",\"g\":" + std::string(a.get(en(e)) ? "1" : "0");
-    r += ",\"ix\":" + std::string(a[en(e)] ? "1" : "0");
-    { bf c(a); r += ",\"ixm\":" + std::string(c[en(e)] ? "1" : "0"); }
-    r += ",\"an\":" + std::string((a & en(e)) ? "1" : "0");
-    r += ",\"aa\":" + elems(a) + "}";
-    vj::end_call(r);
+    guarded([&] {
+      vj::J pre;
+      pre.kv("f", "elem").kv("n", N).kv("w", W).kv("p", prov_name[p]).raw("ms", vj::arr(members(m, N))).kv("e", e);
+      begin("elem", pre.s);
+      bf const a(make(p, m));
+      std::string r = ",\"a\":" + elems(a);
+      { bf c(a); OP("set"); c.set(en(e), true); r += ",\"set1\":" + obs(c); }
+      { bf c(a); OP("set"); c.set(en(e), false); r += ",\"set0\":" + obs(c); }
+      { bf c(a); OP("idx"); c[en(e)] = true; r += ",\"idx1\":" + obs(c); }
+      { bf c(a); OP("idx"); c[en(e)] = false; r += ",\"idx0\":" + obs(c); }
+      OP("ore");
+      r += ",\"ore\":" + obs(a | en(e));
+      { bf c(a); OP("orae"); bf &ref = (c |= en(e)); r += ",\"orae\":" + obs(ref); }
+      OP("get");
+      r += ",\"g\":" + std::string(a.get(en(e)) ? "1" : "0");
+      OP("index");
+      r += ",\"ix\":" + std::string(a[en(e)] ? "1" : "0");
+      { bf c(a); r += ",\"ixm\":" + std::string(c[en(e)] ? "1" : "0"); }
+      OP("and_elem");
+      r += ",\"an\":" + std::string((a & en(e)) ? "1" : "0");
+      r += ",\"aa\":" + elems(a) + "}";
+      vj::end_call(r);
+    });
   }
 
-  static void rel_record(unsigned pa, bf const &a, unsigned pb, bf const &b)
+  static void rel_record(unsigned const pa, bf const &a, unsigned const pb, bf const &b)
   {
-    vj::begin_call(head("rel") + ",\"pa\":\"" + prov_name[pa] + "\",\"pb\":\"" + prov_name[pb] + "\"");
-    vj::end_call(",\"a\":" + elems(a) + ",\"b\":" + elems(b) + ",\"rel\":" + rel(a, b) + "}");
+    guarded([&] {
+      begin("rel", head("rel") + ",\"pa\":\"" + prov_name[pa] + "\",\"pb\":\"" + prov_name[pb] + "\"");
+      vj::end_call(",\"a\":" + elems(a) + ",\"b\":" + elems(b) + ",\"rel\":" + rel(a, b) + "}");
+    });
+  }
+  static void rel_record(unsigned const pa, mask_t const ma, unsigned const pb, mask_t const mb)
+  {
+    guarded([&] {
+      begin("rel", head("rel") + ",\"pa\":\"" + prov_name[pa] + "\",\"pb\":\"" + prov_name[pb] + "\"");
+      bf const a(make(pa, ma));
+      bf const b(make(pb, mb));
+      vj::end_call(",\"a\":" + elems(a) + ",\"b\":" + elems(b) + ",\"rel\":" + rel(a, b) + "}");
+    });
   }
 
-  static void pair_record(unsigned pa, bf const &a, unsigned pb, bf const &b)
+  static void pair_body(bf const &a, bf const &b)
   {
-    vj::begin_call(head("pair") + ",\"pa\":\"" + prov_name[pa] + "\",\"pb\":\"" + prov_name[pb] + "\"");
     std::string r = ",\"a\":" + elems(a) + ",\"b\":" + elems(b);
+    OP("or");
     r += ",\"or\":" + obs(a | b);
+    OP("and");
     r += ",\"and\":" + obs(a & b);
+    OP("xor");
     r += ",\"xor\":" + obs(a ^ b);
-    { bf c(a); bf &ref = (c |= b); r += ",\"ora\":" + obs(ref); }
-    { bf c(a); bf &ref = (c &= b); r += ",\"anda\":" + obs(ref); }
-    { bf c(a); bf &ref = (c ^= b); r += ",\"xora\":" + obs(ref); }
+    { bf c(a); OP("ora"); bf &ref = (c |= b); r += ",\"ora\":" + obs(ref); }
+    { bf c(a); OP("anda"); bf &ref = (c &= b); r += ",\"anda\":" + obs(ref); }
+    { bf c(a); OP("xora"); bf &ref = (c ^= b); r += ",\"xora\":" + obs(ref); }
     r += ",\"rel\":" + rel(a, b);
     r += ",\"aa\":" + elems(a) + ",\"ba\":" + elems(b) + "}";
     vj::end_call(r);
   }
+  static void pair_record(unsigned const pa, bf const &a, unsigned const pb, bf const &b)
+  {
+    guarded([&] {
+      begin("pair", head("pair") + ",\"pa\":\"" + prov_name[pa] + "\",\"pb\":\"" + prov_name[pb] + "\"");
+      pair_body(a, b);
+    });
+  }
+  static void pair_record(unsigned const pa, mask_t const ma, unsigned const pb, mask_t const mb)
+  {
+    guarded([&] {
+      begin("pair", head("pair") + ",\"pa\":\"" + prov_name[pa] + "\",\"pb\":\"" + prov_name[pb] + "\"");
+      bf const a(make(pa, ma));
+      bf const b(make(pb, mb));
+      pair_body(a, b);
+    });
+  }
 
   // ---- operator[] proxies: assignment through operator[] from another proxy, chains ----
-  static void proxy_record(unsigned p, mask_t ma, mask_t mb, unsigned i, unsigned j)
+  static void proxy_record(unsigned const p, mask_t const ma, mask_t const mb, unsigned const i, unsigned const j)
   {
-    vj::J pre;
-    pre.kv("f", "proxy").kv("n", N).kv("w", W).kv("p", prov_name[p]).kv("i", i).kv("j", j);
-    vj::begin_call(pre.s);
-    bf const a(make(p, ma));
-    bf const b(make((p + 1) % num_prov, mb));
-    std::string r = ",\"a\":" + elems(a) + ",\"b\":" + elems(b);
-    { bf c(a); c[en(i)] = c[en(j)]; r += ",\"cp\":" + obs(c); }
-    { bf c(a); c[en(i)] = c[en(j)] = true; r += ",\"ch1\":" + obs(c); }
-    { bf c(a); c[en(i)] = c[en(j)] = false; r += ",\"ch0\":" + obs(c); }
-    {
-      // named proxies: p = q assigns q's bit to p's bit; p keeps referring to enumerator i
-      bf c(a);
-      typename bf::reference pr(c[en(i)]);
-      typename bf::reference qr(c[en(j)]);
-      pr = qr;
-      pr = false;
-      r += ",\"named\":" + obs(c);
-    }
-    {
-      bf c(a);
-      typename bf::reference pr(c[en(i)]);
-      typename bf::reference qr(c[en(j)]);
-      pr = std::move(qr);
-      r += ",\"mv\":" + obs(c);
-    }
-    {
-      bf c(a);
-      bf d(b);
-      c[en(i)] = d[en(j)];
-      r += ",\"cross\":" + obs(c) + ",\"crossb\":" + elems(d);
-    }
-    r += ",\"aa\":" + elems(a) + "}";
-    vj::end_call(r);
+    guarded([&] {
+      vj::J pre;
+      pre.kv("f", "proxy").kv("n", N).kv("w", W).kv("p", prov_name[p]).kv("i", i).kv("j", j);
+      begin("proxy", pre.s);
+      bf const a(make(p, ma));
+      bf const b(make((p + 1) % num_prov, mb));
+      std::string r = ",\"a\":" + elems(a) + ",\"b\":" + elems(b);
+      { bf c(a); OP("proxy_copy_assign"); c[en(i)] = c[en(j)]; r += ",\"cp\":" + obs(c); }
+      { bf c(a); OP("proxy_chain"); c[en(i)] = c[en(j)] = true; r += ",\"ch1\":" + obs(c); }
+      { bf c(a); OP("proxy_chain"); c[en(i)] = c[en(j)] = false; r += ",\"ch0\":" + obs(c); }
+      {
+        // named proxies: p = q assigns q's bit to p's bit; p keeps referring to enumerator i
+        bf c(a);
+        OP("proxy_copy_assign");
+        typename bf::reference pr(c[en(i)]);
+        typename bf::reference qr(c[en(j)]);
+        pr = qr;
+        pr = false;
+        r += ",\"named\":" + obs(c);
+      }
+      {
+        bf c(a);
+        OP("proxy_move_assign");
+        typename bf::reference pr(c[en(i)]);
+        typename bf::reference qr(c[en(j)]);
+        pr = std::move(qr);
+        r += ",\"mv\":" + obs(c);
+      }
+      {
+        bf c(a);
+        bf d(b);
+        OP("proxy_copy_assign");
+        c[en(i)] = d[en(j)];
+        r += ",\"cross\":" + obs(c) + ",\"crossb\":" + elems(d);
+      }
+      {
+        // the same between NAMED proxies of two objects: copy assignment (temporaries take the move assignment)
+        bf c(a);
+        bf d(b);
+        OP("proxy_copy_assign");
+        typename bf::reference pr(c[en(i)]);
+        typename bf::reference qr(d[en(j)]);
+        pr = qr;
+        r += ",\"crossn\":" + obs(c) + ",\"crossnb\":" + elems(d);
+      }
+      {
+        // from a proxy of a const bitfield: const proxy -> bool -> operator=(bool)
+        bf c(a);
+        bf const &k = b;
+        OP("idx");
+        c[en(i)] = k[en(j)];
+        r += ",\"crossk\":" + obs(c);
+      }
+      r += ",\"aa\":" + elems(a) + "}";
+      vj::end_call(r);
+    });
   }
 
-  // ---- details of the proxy type and of returned references (observed only) ----
-  static void proxyx_record(unsigned p, mask_t ma, mask_t mb, unsigned i, unsigned j)
+  // ---- all single-enumerator operations of one subset ----
+  static void bits_record(mask_t const m)
   {
-    vj::J pre;
-    pre.kv("f", "proxyx").kv("n", N).kv("w", W).kv("p", prov_name[p]).kv("i", i).kv("j", j);
-    vj::begin_call(pre.s);
-    bf const a(make(p, ma));
-    bf const b(make((p + 1) % num_prov, mb));
-    std::string r = ",\"a\":" + elems(a) + ",\"b\":" + elems(b);
-    {
-      // a copy of a proxy refers to the same bit
-      bf c(a);
-      typename bf::reference pr(c[en(i)]);
-      typename bf::reference pc(pr);
-      pc = true;
-      r += ",\"cpy\":" + obs(c);
-      r += std::string(",\"cpyr\":") + (static_cast<bool>(pr) ? "1" : "0");
-    }
-    {
-      // const proxy -> bool, reference returned by operator=(bool)
-      bf c(a);
-      bf const &k = c;
-      typename bf::const_reference const kr(k[en(j)]);
-      r += std::string(",\"cc\":") + (static_cast<bool>(kr) ? "1" : "0");
-      typename bf::reference pr(c[en(i)]);
-      typename bf::reference &ret = (pr = true);
-      r += std::string(",\"rs\":") + ((&ret == &pr) ? "1" : "0");
-      typename bf::reference &ret2 = (ret = false);
-      r += std::string(",\"rs2\":") + ((&ret2 == &pr) ? "1" : "0");
-      r += ",\"rsv\":" + obs(c);
-    }
-    {
-      // rid: do the assigning operators return a reference to their left operand?
-      std::string rid = "[";
-      { bf c(a); bf &ref = (c |= b); rid += (&ref == &c) ? "1," : "0,"; }
-      { bf c(a); bf &ref = (c &= b); rid += (&ref == &c) ? "1," : "0,"; }
-      { bf c(a); bf &ref = (c ^= b); rid += (&ref == &c) ? "1," : "0,"; }
-      { bf c(a); bf &ref = (c |= en(i)); rid += (&ref == &c) ? "1]" : "0]"; }
-      r += ",\"rid\":" + rid;
-    }
-    r += ",\"aa\":" + elems(a) + "}";
-    vj::end_call(r);
-  }
-
-  // ---- operator<< (char and wchar_t), underlying_value / construction from the word ----
-  static std::string word_limbs(unsigned long long v)
-  {
-    return "[" + std::to_string(v & 0xFFFFU) + "," + std::to_string((v >> 16U) & 0xFFFFU) + "," +
-           std::to_string((v >> 32U) & 0xFFFFU) + "," + std::to_string((v >> 48U) & 0xFFFFU) + "]";
-  }
-  static void out_record(unsigned p, mask_t m)
-  {
-    vj::J pre;
-    pre.kv("f", "out").kv("n", N).kv("w", W).kv("p", prov_name[p]);
-    vj::begin_call(pre.s);
-    bf const a(make(p, m));
-    std::ostringstream os;
-    os << a;
-    std::wostringstream ws;
-    ws << a;
-    std::string r = ",\"a\":" + elems(a) + ",\"s\":" + vj::cps(os.str()) + ",\"ws\":" + vj::cps(ws.str());
-    r += std::string(",\"good\":") + ((os.good() && ws.good()) ? "1" : "0");
-    if constexpr (bf::array_size::value == 1U)
-    {
-      Wd const u = fcppt::container::bitfield::underlying_value(a);
-      r += ",\"uv\":" + word_limbs(static_cast<unsigned long long>(u));
-      // a bitfield constructed from that word, and one constructed from the word the generator
-      // describes (bit e of the word = enumerator e), which has no bit outside the enum
-      bf const back(typename bf::array_type{u});
-      r += ",\"uvb\":" + obs(back);
-      Wd const arg = static_cast<Wd>(m);
-      bf const from(typename bf::array_type{arg});
-      r += ",\"arg\":" + word_limbs(static_cast<unsigned long long>(arg)) + ",\"from\":" + obs(from);
-    }
-    else
-    {
-      r += ",\"uv\":[],\"uvb\":[],\"arg\":[],\"from\":[]";
-    }
-    r += "}";
-    vj::end_call(r);
-  }
-
-  // ---- all single-enumerator operations of one subset (17 enumerators, thorough: every subset) ----
-  static void bits_record(mask_t m)
-  {
-    vj::J pre;
-    pre.kv("f", "bits").kv("n", N).kv("w", W).kv("m", static_cast<long long>(m));
-    vj::begin_call(pre.s);
-    bf a(bf::null());
-    for (unsigned i = 0; i < N; ++i)
-      if ((m >> i) & 1U) a[en(i)] = true;
-    std::string r = ",\"a\":" + elems(a) + ",\"ai\":" + elems_index(a) + ",\"s1\":[";
-    for (unsigned e = 0; e < N; ++e) { bf c(a); c.set(en(e), true); r += (e ? "," : "") + elems(c); }
-    r += "],\"s0\":[";
-    for (unsigned e = 0; e < N; ++e) { bf c(a); c[en(e)] = false; r += (e ? "," : "") + elems(c); }
-    r += "],\"or1\":[";
-    for (unsigned e = 0; e < N; ++e) r += (e ? "," : "") + elems(a | en(e));
-    r += "],\"nt\":" + obs(~a) + "}";
-    vj::end_call(r);
+    guarded([&] {
+      vj::J pre;
+      pre.kv("f", "bits").kv("n", N).kv("w", W).raw("ms", vj::arr(members(m, N)));
+      begin("bits", pre.s);
+      bf a(bf::null());
+      OP("idx");
+      for (unsigned i = 0; i < N; ++i)
+        if ((m >> i) & 1U) a[en(i)] = true;
+      std::string r = ",\"a\":" + elems(a) + ",\"ai\":" + elems_index(a) + ",\"s1\":[";
+      for (unsigned e = 0; e < N; ++e) { bf c(a); OP("set"); c.set(en(e), true); r += (e ? "," : "") + elems(c); }
+      r += "],\"s0\":[";
+      for (unsigned e = 0; e < N; ++e) { bf c(a); OP("idx"); c[en(e)] = false; r += (e ? "," : "") + elems(c); }
+      r += "],\"or1\":[";
+      for (unsigned e = 0; e < N; ++e) { OP("ore"); bf const c(a | en(e)); r += (e ? "," : "") + elems(c); }
+      OP("not");
+      r += "],\"nt\":" + obs(~a) + "}";
+      vj::end_call(r);
+    });
   }
 
   // ---- random expression trees ----
-  static tp random_tree(vj::Rng &g, int depth)
+  static std::vector<unsigned> random_members(vj::Rng &g)
   {
-    mask_t const full = (mask_t{1} << N) - 1U;
+    mask_t const full = full_mask(N);
+    if (!big) return members(static_cast<mask_t>(g.next()) & full, N);
+    switch (g.below(3))
+    {
+    case 0: return members(rnd_mask(g) & full, N);
+    case 1: return members(rnd_mask(g) & rnd_mask(g) & rnd_mask(g) & full, N);
+    default: return members((rnd_mask(g) | rnd_mask(g)) & full, N);
+    }
+  }
+  static unsigned random_enumerator(vj::Rng &g)
+  {
+    if (big && g.coin())
+    {
+      std::vector<unsigned> const h = very_hot();
+      return h[g.below(h.size())];
+    }
+    return static_cast<unsigned>(g.below(N));
+  }
+  static tp random_tree(vj::Rng &g, int const depth)
+  {
     if (depth <= 0 || g.below(10) < 2)
     {
-      switch (g.below(4))
+      switch (g.below(5))
       {
       case 0: return leaf("null");
-      case 1: return leaf("init", members(static_cast<mask_t>(g.next()) & full, N));
+      case 1: return leaf("init", random_members(g));
+      case 2:
+      {
+        std::vector<unsigned> s;
+        unsigned const k = static_cast<unsigned>(g.below(max_ilist + 1U));
+        for (unsigned i = 0; i < k; ++i) s.push_back(random_enumerator(g));
+        return leaf("ilist", s);
+      }
       default:
       {
         // set() calls in arbitrary order, possibly repeated
         std::vector<unsigned> s;
-        unsigned const k = static_cast<unsigned>(g.below(N + 2));
-        for (unsigned i = 0; i < k; ++i) s.push_back(static_cast<unsigned>(g.below(N)));
+        unsigned const k = static_cast<unsigned>(g.below((big ? 12U : N) + 2U));
+        for (unsigned i = 0; i < k; ++i) s.push_back(random_enumerator(g));
         return leaf("set", s);
       }
       }
@@ -555,10 +846,10 @@ struct driver
     case 6: return bin("ora", random_tree(g, depth - 1), random_tree(g, depth - 1));
     case 7: return bin("anda", random_tree(g, depth - 1), random_tree(g, depth - 1));
     case 8: return bin("xora", random_tree(g, depth - 1), random_tree(g, depth - 1));
-    case 9: return elem("sete", random_tree(g, depth - 1), static_cast<unsigned>(g.below(N)), g.coin());
-    case 10: return elem("idx", random_tree(g, depth - 1), static_cast<unsigned>(g.below(N)), g.coin());
-    case 11: return elem("ore", random_tree(g, depth - 1), static_cast<unsigned>(g.below(N)), false);
-    case 12: return elem("orae", random_tree(g, depth - 1), static_cast<unsigned>(g.below(N)), false);
+    case 9: return elem("sete", random_tree(g, depth - 1), random_enumerator(g), g.coin());
+    case 10: return elem("idx", random_tree(g, depth - 1), random_enumerator(g), g.coin());
+    case 11: return elem("ore", random_tree(g, depth - 1), random_enumerator(g), false);
+    case 12: return elem("orae", random_tree(g, depth - 1), random_enumerator(g), false);
     default: return un("not", un("not", random_tree(g, depth - 1)));
     }
   }
@@ -576,10 +867,12 @@ struct driver
     case 3: u = bin("or", t, un("not", un("not", leaf("null")))); break;
     default: u = random_tree(g, 6);
     }
-    vj::begin_call(head("tree") + ",\"t\":" + tree_json(*t) + ",\"u\":" + tree_json(*u));
-    bf const r(eval(*t));
-    bf const q(eval(*u));
-    vj::end_call(",\"r\":" + obs(r) + ",\"q\":" + obs(q) + ",\"rel\":" + rel(r, q) + "}");
+    guarded([&] {
+      begin("tree", head("tree") + ",\"t\":" + tree_json(*t) + ",\"u\":" + tree_json(*u));
+      bf const r(eval(*t));
+      bf const q(eval(*u));
+      vj::end_call(",\"r\":" + obs(r) + ",\"q\":" + obs(q) + ",\"rel\":" + rel(r, q) + "}");
+    });
   }
 
   // ---- histories of the register machine (x, y) ----
@@ -606,6 +899,7 @@ struct driver
   static bf apply(op const &o, bf &x, bf &y)
   {
     std::string const &n = o.name;
+    set_op(n.c_str()); // (the operation outlives the record)
     if (n == "set") { x.set(en(o.i), o.b); return x; }
     if (n == "idx") { x[en(o.i)] = o.b; return x; }
     if (n == "ore") { bf r(x | en(o.i)); x = r; return r; }
@@ -626,6 +920,7 @@ struct driver
     if (n == "idxcopy") { x[en(o.i)] = x[en(o.j)]; return x; }
     if (n == "idxcopy_y") { x[en(o.i)] = y[en(o.j)]; return x; }
     if (n == "chain") { x[en(o.i)] = x[en(o.j)] = o.b; return x; }
+    if (n == "ilist") { x = from_ilist(o.s); return x; }
     if (n == "init")
     {
       x = fcppt::container::bitfield::init<bf>([&o](E const e) {
@@ -635,177 +930,283 @@ struct driver
       });
       return x;
     }
-    throw std::runtime_error("history: unknown operation " + n);
+    throw harness_error("history: unknown operation " + n);
   }
-  static void run_history(char const *src, std::vector<op> const &ops)
+  static void run_history(char const *const src, std::vector<op> const &ops)
   {
     // histories that assign one operator[] proxy to another are a record kind of their own
     bool proxy_ops = false;
     for (op const &o : ops) proxy_ops = proxy_ops || o.name == "idxcopy" || o.name == "idxcopy_y" || o.name == "chain";
-    std::string pre = head(proxy_ops ? "histp" : "hist") + ",\"src\":\"" + src + "\",\"ops\":[";
+    char const *const kind = proxy_ops ? "histp" : "hist";
+    std::string pre = head(kind) + ",\"src\":\"" + src + "\",\"ops\":[";
     for (std::size_t k = 0; k < ops.size(); ++k) pre += (k ? "," : "") + op_json(ops[k]);
     pre += "]";
-    vj::begin_call(pre);
-    bf x(bf::null());
-    bf y(bf::null());
-    std::string r = ",\"o0\":" + state_json(x, y, x) + ",\"obs\":[";
-    for (std::size_t k = 0; k < ops.size(); ++k)
-    {
-      bf const rv(apply(ops[k], x, y));
-      r += (k ? "," : "") + state_json(x, y, rv);
-    }
-    vj::end_call(r + "]}");
+    guarded([&] {
+      begin(kind, pre);
+      OP("null");
+      bf x(bf::null());
+      bf y(bf::null());
+      std::string r = ",\"o0\":" + state_json(x, y, x) + ",\"obs\":[";
+      for (std::size_t k = 0; k < ops.size(); ++k)
+      {
+        bf const rv(apply(ops[k], x, y));
+        r += (k ? "," : "") + state_json(x, y, rv);
+      }
+      vj::end_call(r + "]}");
+    });
+    OP("harness");
   }
   static op random_op(vj::Rng &g)
   {
     static char const *const names[] = {"set", "idx", "ore", "orae", "or", "and", "xor", "ora", "anda", "xora",
                                         "selfora", "selfanda", "selfxora", "not", "not", "not", "swap", "swap",
-                                        "copy", "null", "init", "set", "set", "idxcopy", "idxcopy_y", "chain"};
+                                        "copy", "null", "init", "set", "set", "idxcopy", "idxcopy_y", "chain", "ilist"};
     op o;
     o.name = names[g.below(sizeof names / sizeof names[0])];
-    o.i = static_cast<unsigned>(g.below(N));
-    o.j = static_cast<unsigned>(g.below(N));
+    o.i = random_enumerator(g);
+    o.j = random_enumerator(g);
     o.b = g.coin();
-    if (o.name == "init") o.s = members(static_cast<mask_t>(g.next()) & ((mask_t{1} << N) - 1U), N);
+    if (o.name == "init") o.s = random_members(g);
+    if (o.name == "ilist")
+    {
+      unsigned const k = static_cast<unsigned>(g.below(max_ilist + 1U));
+      for (unsigned i = 0; i < k; ++i) o.s.push_back(random_enumerator(g));
+    }
     return o;
   }
 
   // ---- modes ----
-  static int record(
-      std::uint64_t seed, std::string const &pairs_mode, long ntrees, long nhist, long bits_stride, long lastword_stride,
-      bool deep)
+  static int record(args const &a)
   {
+    std::uint64_t const seed = a.seed;
     vj::Rng g(seed * 7919ULL + N * 131ULL + static_cast<unsigned>(W));
-    mask_t const full = (mask_t{1} << N) - 1U;
+    mask_t const full = full_mask(N);
+    std::vector<mask_t> const masks = subset_sample(g);
+    std::vector<unsigned> const hot_e = hot();
+    std::vector<unsigned> const vhot = very_hot();
     build_records();
-    // the subsets driven one by one: all of them up to 9 enumerators, a sample beyond
-    std::vector<mask_t> masks;
-    if (N <= 9)
-      for (mask_t m = 0; m <= full; ++m) masks.push_back(m);
-    else
+    ilist_records(g, hot_e);
+    for (std::size_t k = 0; k < masks.size(); ++k)
+      for (unsigned p = 0; p < num_prov; ++p) single_record(p, masks[k]);
+    // single-enumerator operations
+    for (std::size_t k = 0; k < masks.size(); ++k)
     {
-      masks = {0U, full, 1U, mask_t{1} << (N - 1), full >> 1U, full & ~mask_t{1}, 0xFFU, 0x100U, 0xFF00U, 0x10000U, 0xFFFFU};
-      for (unsigned i = 0; i < N; ++i) masks.push_back(mask_t{1} << i);
-      for (int i = 0; i < 200; ++i) masks.push_back(static_cast<mask_t>(g.next()) & full);
+      mask_t const m = masks[k];
+      if (!big)
+      {
+        for (unsigned e = 0; e < N; ++e)
+          for (unsigned p = 0; p < num_prov; ++p)
+            if (N <= 8 || (m + e + p) % 3 == 0) elem_record(p, m, e);
+      }
+      else
+      {
+        // the enumerators next to the 32- and 64-bit boundaries and two others, productions rotating
+        std::vector<unsigned> es = vhot;
+        es.push_back(hot_e[(k * 2U) % hot_e.size()]);
+        es.push_back(static_cast<unsigned>(g.below(N)));
+        for (std::size_t q = 0; q < es.size(); ++q) elem_record(static_cast<unsigned>((k + q) % num_prov), m, es[q]);
+      }
     }
-    for (mask_t m : masks)
-      for (unsigned p = 0; p < num_prov; ++p) single_record(p, m);
-    for (mask_t m : masks)
-      for (unsigned e = 0; e < N; ++e)
-        for (unsigned p = 0; p < num_prov; ++p)
-          if (N <= 8 || (m + e + p) % 3 == 0) elem_record(p, m, e);
     // operator[] proxies
-    for (mask_t m : masks)
+    for (std::size_t k = 0; k < masks.size(); ++k)
+    {
+      mask_t const m = masks[k];
+      if (big)
+      {
+        unsigned const cand[][2] = {{31U, 32U}, {32U, 31U}, {32U, 32U}, {33U, 0U}, {63U, 64U}, {64U, 63U}, {N - 1U, 31U}, {0U, N - 1U}};
+        unsigned c = 0;
+        for (auto const &ij : cand)
+        {
+          if (ij[0] >= N || ij[1] >= N) continue;
+          proxy_record(static_cast<unsigned>((k + c++) % num_prov), m, mix_mask(m, ij[0], ij[1]) & full, ij[0], ij[1]);
+        }
+        continue;
+      }
       for (unsigned i = 0; i < N; ++i)
       {
         std::vector<unsigned> js;
         if (N <= 3)
           for (unsigned j = 0; j < N; ++j) js.push_back(j);
-        else if (deep)
+        else if (a.deep)
           js = {i, (i + 1U) % N, N - 1U, static_cast<unsigned>((m + i) % N)};
         else
           js = {(m % 2U == 0U) ? i : (i + 1U) % N, static_cast<unsigned>((m + i) % N)};
-        for (std::size_t k = 0; k < js.size(); ++k)
+        for (std::size_t q = 0; q < js.size(); ++q)
         {
-          bool dup = false;
-          for (std::size_t q = 0; q < k; ++q) dup = dup || js[q] == js[k];
-          if (dup) continue;
-          mask_t const mb = static_cast<mask_t>((static_cast<std::uint64_t>(m) * 2654435761ULL + i * 40503ULL + js[k]) >> 5U) & full;
+          if (std::find(js.begin(), js.begin() + static_cast<std::ptrdiff_t>(q), js[q]) != js.begin() + static_cast<std::ptrdiff_t>(q)) continue;
+          mask_t const mb = mix_mask(m, i, js[q]) & full;
           if (N <= 3)
-            for (unsigned p = 0; p < num_prov; ++p) proxy_record(p, m, mb, i, js[k]);
+            for (unsigned p = 0; p < num_prov; ++p) proxy_record(p, m, mb, i, js[q]);
           else
-            proxy_record(static_cast<unsigned>((m + i + js[k]) % num_prov), m, mb, i, js[k]);
-          if (k == 0 || N <= 3) proxyx_record(static_cast<unsigned>((m + i) % num_prov), m, mb, i, js[k]);
+            proxy_record(static_cast<unsigned>((m + i + js[q]) % num_prov), m, mb, i, js[q]);
         }
       }
-    // operator<<, underlying_value, construction from the storage word
-    for (mask_t m : masks)
-    {
-      out_record(static_cast<unsigned>(m % num_prov), m);
-      out_record(2U, m);
     }
-    // every single-enumerator operation of every bits_stride-th subset
-    if (bits_stride > 0)
-      for (mask_t m = 0; m <= full; m += static_cast<mask_t>(bits_stride))
+    // every single-enumerator operation of every bits_stride-th subset (big enums: of 16 subsets)
+    if (a.bits_stride > 0)
+    {
+      if (big)
       {
-        bits_record(m);
-        if (m == full) break;
+        for (std::size_t k = 0; k < masks.size(); k += (k < 8U ? 1U : masks.size() / 8U)) bits_record(masks[k]);
       }
+      else
+        for (mask_t m = 0; m <= full; m += static_cast<mask_t>(a.bits_stride))
+        {
+          bits_record(m);
+          if (m == full) break;
+        }
+    }
     // multi-word bitfields: pairs of subsets that differ only in the last storage word
-    if (lastword_stride > 0 && bf::array_size::value > 1U)
+    if (a.lastword_stride > 0 && bf::array_size::value > 1U)
     {
       unsigned const low = static_cast<unsigned>((bf::array_size::value - 1U) * static_cast<unsigned>(W)); // enumerators below the last word
       unsigned const used = N - low;
       unsigned long c = static_cast<unsigned long>(seed);
-      for (mask_t common = 0; common < (mask_t{1} << low); common += static_cast<mask_t>(lastword_stride))
-        for (mask_t l1 = 0; l1 < (mask_t{1} << used); ++l1)
-          for (mask_t l2 = 0; l2 < (mask_t{1} << used); ++l2, ++c)
+      auto const one = [&c, low](mask_t const common, mask_t const l1, mask_t const l2) {
+        unsigned const pa = static_cast<unsigned>(c % num_prov);
+        unsigned const pb = static_cast<unsigned>((c / num_prov) % num_prov);
+        ++c;
+        pair_record(pa, common | (l1 << low), pb, common | (l2 << low));
+      };
+      if (!big)
+      {
+        for (mask_t common = 0; common < bit(low); common += static_cast<mask_t>(a.lastword_stride))
+          for (mask_t l1 = 0; l1 < bit(used); ++l1)
+            for (mask_t l2 = 0; l2 < bit(used); ++l2) one(common, l1, l2);
+      }
+      else
+      {
+        for (std::size_t k = 0; k < masks.size(); k += masks.size() / 8U)
+        {
+          mask_t const common = masks[k] & full_mask(low);
+          if (used <= 2U)
           {
-            unsigned const pa = static_cast<unsigned>(c % num_prov);
-            unsigned const pb = static_cast<unsigned>((c / num_prov) % num_prov);
-            pair_record(pa, make(pa, common | (l1 << low)), pb, make(pb, common | (l2 << low)));
+            for (mask_t l1 = 0; l1 < bit(used); ++l1)
+              for (mask_t l2 = 0; l2 < bit(used); ++l2) one(common, l1, l2);
           }
+          else
+            for (int q = 0; q < 6; ++q)
+            {
+              mask_t const l1 = rnd_mask(g) & full_mask(used);
+              one(common, l1, q % 2 == 0 ? (l1 ^ bit(static_cast<unsigned>(g.below(used)))) : (rnd_mask(g) & full_mask(used)));
+            }
+        }
+      }
     }
-    // the same subset produced in two ways: all 36 combinations
-    for (mask_t m : masks)
+    // the same subset produced in two ways: all 36 combinations (big enums: 36 for the first twelve
+    // subsets, 12 for the others)
+    for (std::size_t k = 0; k < masks.size(); ++k)
     {
+      mask_t const m = masks[k];
       std::vector<bf> v;
-      for (unsigned p = 0; p < num_prov; ++p) v.push_back(make(p, m));
+      bool ok = true;
+      guarded([&] {
+        ok = false;
+        set_kind("rel");
+        ::alarm(20);
+        for (unsigned p = 0; p < num_prov; ++p) v.push_back(make(p, m));
+        ok = true;
+      });
+      if (!ok) continue;
       for (unsigned pa = 0; pa < num_prov; ++pa)
-        for (unsigned pb = 0; pb < num_prov; ++pb) rel_record(pa, v[pa], pb, v[pb]);
+        for (unsigned pb = 0; pb < num_prov; ++pb)
+          if (!big || k < 12U || pb == pa || pb == (pa + 1U + k % 5U) % num_prov) rel_record(pa, v[pa], pb, v[pb]);
     }
-    // beyond 9 enumerators: every sampled subset against each of its one-enumerator neighbours
+    // beyond 9 enumerators: every sampled subset against its one-enumerator neighbours
     if (N > 9)
     {
       unsigned long c = 0;
-      for (mask_t m : masks)
-        for (unsigned k = 0; k < N; ++k, ++c)
+      for (mask_t const m : masks)
+        for (unsigned const e : (big ? hot_e : members(full, N)))
         {
           unsigned const pa = static_cast<unsigned>(c % num_prov);
           unsigned const pb = static_cast<unsigned>((c / num_prov) % num_prov);
-          rel_record(pa, make(pa, m), pb, make(pb, m ^ (mask_t{1} << k)));
+          ++c;
+          rel_record(pa, m, pb, m ^ bit(e));
         }
     }
     // pairs of subsets
-    if (pairs_mode == "all")
+    if (a.pairs == "all")
     {
-      if (N > 9) { std::fprintf(stderr, "all pairs only up to 9 enumerators\n"); return 3; }
+      if (N > 9) throw harness_error("all pairs only up to 9 enumerators");
       std::vector<std::vector<bf>> v(num_prov);
-      for (unsigned p = 0; p < num_prov; ++p)
-        for (mask_t m = 0; m <= full; ++m) v[p].push_back(make(p, m));
+      bool ok = false;
+      guarded([&] {
+        set_kind("pair");
+        ::alarm(20);
+        for (unsigned p = 0; p < num_prov; ++p)
+          for (mask_t m = 0; m <= full; ++m) v[p].push_back(make(p, m));
+        ok = true;
+      });
       unsigned long c = static_cast<unsigned long>(seed);
-      for (mask_t ma = 0; ma <= full; ++ma)
-        for (mask_t mb = 0; mb <= full; ++mb, ++c)
-        {
-          unsigned const pa = static_cast<unsigned>(c % num_prov);
-          unsigned const pb = static_cast<unsigned>((c / num_prov) % num_prov);
-          pair_record(pa, v[pa][ma], pb, v[pb][mb]);
-        }
+      if (ok)
+        for (mask_t ma = 0; ma <= full; ++ma)
+          for (mask_t mb = 0; mb <= full; ++mb, ++c)
+          {
+            unsigned const pa = static_cast<unsigned>(c % num_prov);
+            unsigned const pb = static_cast<unsigned>((c / num_prov) % num_prov);
+            pair_record(pa, v[pa][static_cast<std::size_t>(ma)], pb, v[pb][static_cast<std::size_t>(mb)]);
+          }
     }
     else
     {
-      long const np = std::strtol(pairs_mode.c_str(), nullptr, 10);
+      // corner pairs: empty, full and the one-enumerator subsets next to the word boundaries, each with each
+      {
+        std::vector<mask_t> corner = {0U, full};
+        for (unsigned const e : (big ? vhot : hot_e)) corner.push_back(bit(e));
+        unsigned long c = static_cast<unsigned long>(seed);
+        for (mask_t const ma : corner)
+          for (mask_t const mb : corner)
+          {
+            unsigned const pa = static_cast<unsigned>(c % num_prov);
+            unsigned const pb = static_cast<unsigned>((c / num_prov) % num_prov);
+            ++c;
+            pair_record(pa, ma, pb, mb);
+          }
+      }
+      long const np = std::strtol(a.pairs.c_str(), nullptr, 10);
       for (long k = 0; k < np; ++k)
       {
         unsigned const pa = static_cast<unsigned>(g.below(num_prov));
         unsigned const pb = static_cast<unsigned>(g.below(num_prov));
-        mask_t ma = static_cast<mask_t>(g.next()) & full;
-        mask_t mb = static_cast<mask_t>(g.next()) & full;
-        switch (g.below(10))
+        mask_t ma, mb;
+        if (!big)
+        {
+          ma = static_cast<mask_t>(g.next()) & full;
+          mb = static_cast<mask_t>(g.next()) & full;
+        }
+        else
+        {
+          // operands: sampled subsets (structured ones among them), uniformly random, sparse or dense
+          auto const pick = [&]() -> mask_t {
+            switch (g.below(4))
+            {
+            case 0: return masks[g.below(masks.size())];
+            case 1: return rnd_mask(g) & rnd_mask(g) & rnd_mask(g) & full;
+            case 2: return (rnd_mask(g) | rnd_mask(g)) & full;
+            default: return rnd_mask(g) & full;
+            }
+          };
+          ma = pick();
+          mb = pick();
+        }
+        switch (g.below(big ? 12 : 10))
         {
         case 0: mb = ma; break;
         case 1: mb = ma & mb; break; // a subset
         case 2: mb = ma | mb; break; // a superset
         case 3: mb = ~ma & full; break;
-        case 4: mb = ma ^ (mask_t{1} << g.below(N)); break; // differs in one enumerator
-        case 5: mb = ma ^ (mask_t{1} << (N - 1)); break;      // differs in the last enumerator
+        case 4: mb = ma ^ bit(static_cast<unsigned>(g.below(N))); break; // differs in one enumerator
+        case 5: mb = ma ^ bit(N - 1); break;                              // differs in the last enumerator
+        case 10: mb = ma ^ bit(vhot[g.below(vhot.size())]); break;        // differs next to a 32/64-bit boundary
+        case 11: mb = (ma & full_mask(32)) | (mb & ~full_mask(32)); break; // equal in the low 32 enumerators
         default: break;
         }
-        pair_record(pa, make(pa, ma), pb, make(pb, mb));
+        pair_record(pa, ma, pb, mb);
       }
     }
-    for (long k = 0; k < ntrees; ++k) tree_record(g);
-    for (long h = 0; h < nhist; ++h)
+    for (long k = 0; k < a.ntrees; ++k) tree_record(g);
+    for (long h = 0; h < a.nhist; ++h)
     {
       std::vector<op> ops;
       unsigned const len = 1 + static_cast<unsigned>(g.below(40));
@@ -821,7 +1222,7 @@ struct driver
     return 0;
   }
 
-  static int replay(char const *scripts)
+  static int replay(char const *const scripts)
   {
     for (auto const &line : vj::read_lines(scripts))
     {
@@ -836,42 +1237,186 @@ struct driver
         o.b = e->has("b") && e->at("b").b;
         if (e->has("s"))
           for (long long v : e->nums("s")) o.s.push_back(static_cast<unsigned>(v));
-        if (o.i >= N || o.j >= N)
-        {
-          std::fprintf(stderr, "script names enumerator %u of an enum with %u\n", o.i, N);
-          return 3;
-        }
+        if (o.i >= N || o.j >= N) throw harness_error("script names an enumerator outside the enum");
         ops.push_back(o);
       }
       run_history("script", ops);
     }
     return 0;
   }
+#else
+  // =====================================================================================
+  // record kinds OUTSIDE the statement of C10 (observed only)
+  // =====================================================================================
+  // ---- details of the proxy type and of returned references ----
+  static void proxyx_record(unsigned const p, mask_t const ma, mask_t const mb, unsigned const i, unsigned const j)
+  {
+    guarded([&] {
+      vj::J pre;
+      pre.kv("f", "proxyx").kv("n", N).kv("w", W).kv("p", prov_name[p]).kv("i", i).kv("j", j);
+      begin("proxyx", pre.s);
+      bf const a(make(p, ma));
+      bf const b(make((p + 1) % num_prov, mb));
+      std::string r = ",\"a\":" + elems(a) + ",\"b\":" + elems(b);
+      {
+        // a copy of a proxy refers to the same bit
+        bf c(a);
+        OP("proxy_copy");
+        typename bf::reference pr(c[en(i)]);
+        typename bf::reference pc(pr);
+        pc = true;
+        r += ",\"cpy\":" + obs(c);
+        OP("proxy_copy");
+        r += std::string(",\"cpyr\":") + (static_cast<bool>(pr) ? "1" : "0");
+      }
+      {
+        // const proxy -> bool, reference returned by operator=(bool)
+        bf c(a);
+        bf const &k = c;
+        OP("index");
+        typename bf::const_reference const kr(k[en(j)]);
+        r += std::string(",\"cc\":") + (static_cast<bool>(kr) ? "1" : "0");
+        OP("idx");
+        typename bf::reference pr(c[en(i)]);
+        typename bf::reference &ret = (pr = true);
+        r += std::string(",\"rs\":") + ((&ret == &pr) ? "1" : "0");
+        typename bf::reference &ret2 = (ret = false);
+        r += std::string(",\"rs2\":") + ((&ret2 == &pr) ? "1" : "0");
+        r += ",\"rsv\":" + obs(c);
+      }
+      {
+        // rid: do the assigning operators return a reference to their left operand?
+        std::string rid = "[";
+        { bf c(a); OP("ora"); bf &ref = (c |= b); rid += (&ref == &c) ? "1," : "0,"; }
+        { bf c(a); OP("anda"); bf &ref = (c &= b); rid += (&ref == &c) ? "1," : "0,"; }
+        { bf c(a); OP("xora"); bf &ref = (c ^= b); rid += (&ref == &c) ? "1," : "0,"; }
+        { bf c(a); OP("orae"); bf &ref = (c |= en(i)); rid += (&ref == &c) ? "1]" : "0]"; }
+        r += ",\"rid\":" + rid;
+      }
+      r += ",\"aa\":" + elems(a) + "}";
+      vj::end_call(r);
+    });
+  }
+
+  // ---- operator<< (char and wchar_t), underlying_value / construction from the word ----
+  static std::string word_limbs(unsigned long long const v)
+  {
+    return "[" + std::to_string(v & 0xFFFFU) + "," + std::to_string((v >> 16U) & 0xFFFFU) + "," +
+           std::to_string((v >> 32U) & 0xFFFFU) + "," + std::to_string((v >> 48U) & 0xFFFFU) + "]";
+  }
+  static void out_record(unsigned const p, mask_t const m)
+  {
+    guarded([&] {
+      vj::J pre;
+      pre.kv("f", "out").kv("n", N).kv("w", W).kv("p", prov_name[p]);
+      begin("out", pre.s);
+      bf const a(make(p, m));
+      OP("output");
+      std::ostringstream os;
+      os << a;
+      std::wostringstream ws;
+      ws << a;
+      std::string r = ",\"a\":" + elems(a) + ",\"s\":" + vj::cps(os.str()) + ",\"ws\":" + vj::cps(ws.str());
+      r += std::string(",\"good\":") + ((os.good() && ws.good()) ? "1" : "0");
+      if constexpr (bf::array_size::value == 1U)
+      {
+        OP("underlying_value");
+        Wd const u = fcppt::container::bitfield::underlying_value(a);
+        r += ",\"uv\":" + word_limbs(static_cast<unsigned long long>(u));
+        // a bitfield constructed from that word, and one constructed from the word the generator
+        // describes (bit e of the word = enumerator e), which has no bit outside the enum
+        OP("array");
+        bf const back(typename bf::array_type{u});
+        r += ",\"uvb\":" + obs(back);
+        Wd const arg = static_cast<Wd>(m);
+        OP("array");
+        bf const from(typename bf::array_type{arg});
+        r += ",\"arg\":" + word_limbs(static_cast<unsigned long long>(arg)) + ",\"from\":" + obs(from);
+      }
+      else
+      {
+        r += ",\"uv\":[],\"uvb\":[],\"arg\":[],\"from\":[]";
+      }
+      r += "}";
+      vj::end_call(r);
+    });
+  }
+
+  // ---- construction from the word array and from an fcppt::enum_::array<E, bool> ----
+  static void buildx_records()
+  {
+    auto emit = [](char const *how, std::vector<unsigned> const &s, auto const &make_it) {
+      guarded([&] {
+        begin("buildx", head("buildx") + ",\"how\":\"" + how + "\",\"s\":" + vj::arr(s));
+        OP(how);
+        bf const v(make_it());
+        vj::end_call(",\"r\":" + obs(v) + "}");
+      });
+    };
+    // a bitfield is "like a std::map<Enum,bool>": initialise it from an enum_::array<E,bool>
+    guarded([&] {
+      set_kind("buildx");
+      OP("enum_array");
+      ::alarm(20);
+      fcppt::enum_::array<E, bool> flags(
+          fcppt::enum_::array_init<fcppt::enum_::array<E, bool>>([](E const e) { return static_cast<unsigned>(e) % 2U == 0U; }));
+      std::vector<unsigned> s;
+      for (unsigned i = 0; i < N; ++i)
+        if (flags[en(i)]) s.push_back(i);
+      emit("enum_array", s, [&flags] { return fcppt::container::bitfield::init<bf>([&flags](E const e) { return flags[e]; }); });
+    });
+    mask_t const full = full_mask(N);
+    mask_t const picks[] = {0U, full, 1U, bit(N - 1), full & 0x15555U, full & 0x0AAAAU, range_mask(32U < N ? 32U : 0U, N)};
+    for (mask_t m : picks)
+      for (unsigned p = 0; p < num_prov; ++p)
+        emit("array", members(m, N), [p, m] { bf const src(make(p, m)); OP("array"); return bf(src.array()); });
+  }
+
+  static int record(args const &a)
+  {
+    vj::Rng g(a.seed * 7919ULL + N * 131ULL + static_cast<unsigned>(W));
+    mask_t const full = full_mask(N);
+    std::vector<mask_t> const masks = subset_sample(g);
+    buildx_records();
+    for (std::size_t k = 0; k < masks.size(); ++k)
+    {
+      mask_t const m = masks[k];
+      if (big)
+      {
+        unsigned const cand[][2] = {{31U, 32U}, {32U, 0U}, {63U, 64U}, {N - 1U, 32U}};
+        for (auto const &ij : cand)
+          if (ij[0] < N && ij[1] < N)
+            proxyx_record(static_cast<unsigned>((k + ij[0]) % num_prov), m, mix_mask(m, ij[0], ij[1]) & full, ij[0], ij[1]);
+        continue;
+      }
+      for (unsigned i = 0; i < N; ++i)
+      {
+        std::vector<unsigned> js;
+        if (N <= 3)
+          for (unsigned j = 0; j < N; ++j) js.push_back(j);
+        else
+          js = {(m % 2U == 0U) ? i : (i + 1U) % N};
+        for (unsigned const j : js) proxyx_record(static_cast<unsigned>((m + i) % num_prov), m, mix_mask(m, i, j) & full, i, j);
+      }
+    }
+    for (std::size_t k = 0; k < masks.size(); ++k)
+    {
+      out_record(static_cast<unsigned>(masks[k] % num_prov), masks[k]);
+      out_record(2U, masks[k]);
+    }
+    return 0;
+  }
+
+  static int replay(char const *) { throw harness_error("the observed-only executable has no replay mode"); }
+#endif
 };
 
-}
-
-struct c10_args
-{
-  bool replay = false;
-  std::string scripts;
-  std::uint64_t seed = 1;
-  std::string pairs = "0";
-  long ntrees = 0;
-  long nhist = 0;
-  long bits_stride = 0;
-  long lastword_stride = 0;
-  bool deep = false; // thorough: four partner enumerators per proxy record instead of two
-};
-
-namespace
-{
 template <typename E>
-int run_enum(int const w, c10_args const &a)
+int run_enum(int const w, args const &a)
 {
   auto const go = [&a](auto d) {
     using D = decltype(d);
-    return a.replay ? D::replay(a.scripts.c_str()) : D::record(a.seed, a.pairs, a.ntrees, a.nhist, a.bits_stride, a.lastword_stride, a.deep);
+    return a.replay ? D::replay(a.scripts.c_str()) : D::record(a);
   };
   switch (w)
   {
@@ -882,13 +1427,97 @@ int run_enum(int const w, c10_args const &a)
   default: std::fprintf(stderr, "no instantiation for w=%d\n", w); return 3;
   }
 }
+
+template <typename E>
+int main_for(int const argc, char **const argv)
+{
+  constexpr int n_here = static_cast<int>(fcppt::enum_::size<E>::value);
+  if (argc < 6)
+  {
+    std::fprintf(stderr, "usage: record OUT n w seed pairs ntrees nhist [bits lastword deep] | replay SCRIPTS OUT n w\n");
+    return 3;
+  }
+  std::string const mode = argv[1];
+  try
+  {
+    args a;
+    int n = 0;
+    int w = 0;
+    if (mode == "record" && argc >= 9)
+    {
+      vj::open(argv[2]);
+      n = std::atoi(argv[3]);
+      w = std::atoi(argv[4]);
+      a.seed = std::strtoull(argv[5], nullptr, 10);
+      a.pairs = argv[6];
+      a.ntrees = std::strtol(argv[7], nullptr, 10);
+      a.nhist = std::strtol(argv[8], nullptr, 10);
+      a.bits_stride = argc > 9 ? std::strtol(argv[9], nullptr, 10) : 0;
+      a.lastword_stride = argc > 10 ? std::strtol(argv[10], nullptr, 10) : 0;
+      a.deep = argc > 11 && std::strtol(argv[11], nullptr, 10) != 0;
+    }
+    else if (mode == "replay")
+    {
+      vj::open(argv[3]);
+      a.replay = true;
+      a.scripts = argv[2];
+      n = std::atoi(argv[4]);
+      w = std::atoi(argv[5]);
+    }
+    else
+    {
+      std::fprintf(stderr, "bad arguments\n");
+      return 3;
+    }
+    if (n != n_here)
+    {
+      std::fprintf(stderr, "this executable drives the enum with %d enumerators, not %d\n", n_here, n);
+      return 3;
+    }
+    install_handlers(mode == "record" ? argv[2] : argv[3]);
+    int const rc = run_enum<E>(w, a);
+    ::alarm(0);
+    vj::close();
+    return rc != 0 ? rc : (g_exceptions > 0 ? 65 : 0);
+  }
+  catch (harness_error const &e)
+  {
+    std::fprintf(stderr, "harness error: %s\n", e.what());
+    return 3;
+  }
+}
 }
 
-// one translation unit per enum (c10_bitfield_n*.cpp), so that the instantiations compile in parallel
-int c10_run_n1(int, c10_args const &);
-int c10_run_n3(int, c10_args const &);
-int c10_run_n8(int, c10_args const &);
-int c10_run_n9(int, c10_args const &);
-int c10_run_n17(int, c10_args const &);
+#ifdef C10_OBSERVED
+namespace c10
+{
+// the enumerator names printed by operator<< : "v0", "v1", ...
+inline std::string_view enum_name(unsigned const i)
+{
+  static std::vector<std::string> const names = [] {
+    std::vector<std::string> r;
+    for (unsigned k = 0; k < 100U; ++k) r.push_back("v" + std::to_string(k));
+    return r;
+  }();
+  return names.at(i);
+}
+}
+#define C10_NAMES(E)                                                                            \
+  namespace fcppt::enum_                                                                        \
+  {                                                                                             \
+  template <>                                                                                   \
+  struct to_string_impl<E>                                                                      \
+  {                                                                                             \
+    static std::string_view get(E const e) { return ::c10::enum_name(static_cast<unsigned>(e)); } \
+  };                                                                                            \
+  }
+#else
+#define C10_NAMES(E)
+#endif
+
+// the enum is defined by the translation unit (in an unnamed namespace), then: C10_MAIN(e17)
+#define C10_MAIN(E)                                                                             \
+  C10_NAMES(E)                                                                                  \
+  int main(int argc, char **argv) { return ::c10::main_for<E>(argc, argv); }
 
 #endif
